@@ -62,6 +62,18 @@ def writer_fn(t, w, idx, base, world, sch=None):
                 return tx.commit()
 
         return f
+    if kind == "replace":
+        if not files:
+            return lambda: None
+        p = files[w.get("which", 0) % len(files)]
+
+        def f():
+            with t.new_transaction() as tx:
+                tx.delete_files([p])
+                tx.append_data([{"k": 600 + idx, "s": f"rep{idx}"}])
+                return tx.commit()
+
+        return f
     if kind == "rollback":
         def f():
             tx = t.new_transaction().begin()
@@ -232,6 +244,7 @@ FIXED = [
     {"world": "s3cas", "topology": "separate", "nprior": 0, "readers": [[read_spec(api="row_count"), read_spec(api="batches3")]], "writers": [{"op": "multi"}]},
     {"world": "local", "topology": "separate", "nprior": 2, "readers": [[read_spec(api="scan", fault=1), read_spec(api="row_count", fault=2)]], "writers": [{"op": "append"}]},
     {"world": "local", "topology": "separate", "nprior": 1, "readers": [[read_spec(api="iter_records", fault=3), read_spec(api="scan")]], "writers": [{"op": "failing"}, {"op": "append"}]},
+    {"world": "local", "topology": "separate", "nprior": 2, "readers": [[read_spec(api="scan"), read_spec(api="row_count")]], "writers": [{"op": "replace", "which": 0}, {"op": "append"}]},
 ]
 
 
@@ -272,7 +285,7 @@ def pct_case(draw):
             cols = draw(st.sampled_from([None, None, ["k"], ["s"]])) if api != "row_count" else None
             reads.append(read_spec(api=api, flt=flt, cols=cols, verify=draw(st.sampled_from([None, False])), fault=draw(st.sampled_from([0, 0, 0, 1, 2, 3]))))
         readers.append(reads)
-    writers = [{"op": draw(st.sampled_from(["append", "multi", "delete", "rollback", "failing"])), "which": draw(st.integers(0, 2))} for _ in range(draw(st.integers(1, 3)))]
+    writers = [{"op": draw(st.sampled_from(["append", "multi", "delete", "replace", "rollback", "failing"])), "which": draw(st.integers(0, 2))} for _ in range(draw(st.integers(1, 3)))]
     n = len(readers) + len(writers)
     order = draw(st.permutations(list(range(n))))
     pre = [[draw(st.integers(1, 160)), draw(st.integers(0, n - 1))] for _ in range(draw(st.integers(0, 3)))]
@@ -286,7 +299,7 @@ def plan(tier, seed):
     for sc in FIXED:
         for s in range(ns):
             tasks.append({"kind": "enum", "sc": sc, "shard": s, "nshard": ns})
-    n = 200 if tier == "quick" else 3000
+    n = 120 if tier == "quick" else 3000
     for s in range(4 if tier == "quick" else 16):
         tasks.append({"kind": "pct", "n": n, "seed": seed * 1000 + s, "tier": tier})
     return tasks
